@@ -2,7 +2,7 @@
   C18 — a module's variables never reach its importer: the slice mechanism of `compileModule`.
 
   `compileModule` (compiler.go) compiles an aliased module with the importer's variable list cut down
-  to the global variables: `variables: c.variables[:n:n]` — a THREE-index slice expression, which also
+  to the global variables: `scope.variables = variables[:n:n]` — a THREE-index slice expression, which also
   cuts the capacity.  The module compiler then appends the module's own data-import variables to that
   slice.  Props/C18.lean argues at the level of NAMES (`importer_names_not_visible_in_module`); what
   keeps the importer's list intact in memory is the capacity cap, and this file proves it on a model of
